@@ -58,6 +58,19 @@ def impl(op, a):
                 outs.append(fbool(Perm(s).contains(p)))
             return "|".join(outs)
         return guarded(f)
+    if op == "lazy":
+        # a lazily consumed listing interrupted by other searches with the SAME pattern object
+        def h():
+            import itertools as it
+            p = Perm(pseq(a[0]))
+            s1, s2 = Perm(pseq(a[1])), Perm(pseq(a[3]))
+            g1 = p.occurrences_in(s1)
+            first = list(it.islice(g1, int(a[2])))
+            mid = list(p.occurrences_in(s2))
+            c = s2.contains(p)
+            rest = list(g1)
+            return fseqs(first + rest) + "|" + fseqs(mid) + "|" + fbool(c)
+        return guarded(h)
     if op == "badarg":
         def g():
             s = Perm(pseq(a[0]))
@@ -125,6 +138,10 @@ def oracle(op, a):
             hi = [j for j in range(k) if p[j] > v]
             res.append("%d,%d" % (max(lo, key=lambda j: p[j]) if lo else -1, min(hi, key=lambda j: p[j]) if hi else -1))
         return ";".join(res)
+    if op == "lazy":
+        o1 = _occs(pseq(a[0]), pseq(a[1]))
+        o2 = _occs(pseq(a[0]), pseq(a[3]))
+        return fseqs(o1) + "|" + fseqs(o2) + "|" + fbool(bool(o2))
     if op == "badarg":
         return "ERR:TypeError"
     return None
@@ -138,6 +155,8 @@ def nontrivial(op, a, out):
     p = pseq(a[0])
     if op in ("contains", "avoids", "avoidsset"):
         return len(p) >= 2 and any(1 <= len(q) <= len(p) for q in pseqs(a[1]))
+    if op == "lazy":
+        return len(p) >= 1 and len(pseq(a[1])) >= 2
     if op in ("containedin", "avoidedby", "hist"):
         return len(p) >= 1 and any(len(s) >= max(2, len(p)) for s in pseqs(a[1]))
     s = pseq(a[1])
@@ -286,6 +305,15 @@ def run(ctx):
                 ss.append(ss[0])
             lines.append("hist %s %s" % (fseq(p), fseqs(ss)))
     ctx.compare("random-planted", lines)
+    # interleaved lazy listings with one pattern object
+    lines = ["lazy 0,1 0,1,2 1 2,0,1", "lazy 0,1 0,1,2 0 0,1", "lazy 1,0 2,1,0 2 1,0,2"]
+    for _ in range(600 if ctx.tier == "quick" else 6000):
+        k = rng.randrange(1, 5)
+        p = rand_perm(rng, k)
+        s1 = planted(rng, p, rng.randrange(k, 9))
+        s2 = planted(rng, p, rng.randrange(0, 9))
+        lines.append("lazy %s %s %d %s" % (fseq(p), fseq(s1), rng.randrange(0, 5), fseq(s2)))
+    ctx.compare("lazy-interleaved", lines)
     ctx.compare("malformed", ["badarg %s %s" % (fseq(s), k) for s in [(), (0,), (1, 0, 2)] for k in ("contains", "avoids", "in")])
     lines = ["%s %s" % (rng.choice(["lfc", "lfc", "lfcspec"]), fseq(rand_perm(rng, rng.randrange(9, 40)))) for _ in range(300)]
     ctx.compare("lfc-random", lines)
